@@ -4,6 +4,7 @@ CONSTANTS
   Types = {"NC", "Sp", "Str", "CStr", "Nest"}
   Vals = {1, 2}
   Fuses = {0, 1}
+  AFuses = {0, 1}
   InPlaceTypes = {"NC", "Sp", "CStr"}
   NothrowMove = {"NC", "Sp", "Str", "CStr", "Nest"}
   SelfSwapGuard = TRUE
